@@ -1,275 +1,78 @@
 package hc
 
-// TranslateExpr: Go → Lean translation of single expressions (guard conditions, slice bounds,
-// arguments, header bytes) taken out of functions that as a whole are outside the subset of
-// TranslateFuncs (they work on slices, structs, readers).
-//
-// The expression's free *atoms* become Int parameters a0, a1, … in order of first appearance
-// (left to right), so the emitted definition does not depend on how the Go variables are named:
-//   - identifiers that are neither package constants, local constants (ExprOpt.Locals) nor
-//     translated functions (ExprOpt.Fns),
-//   - selector expressions that are not constants (m.Bytes, rpcErr.Argument),
-//   - index expressions (b[1]), len(…) calls, method calls without arguments (b.Len(), reader.Total()).
-// Equal source text = same parameter.  Integer conversions are identity, except byte(x)/uint8(x)
-// = x mod 2^8 (operands are assumed non-negative there).  Everything else follows translate.go
-// (`/`, `%` → Int.tdiv/tmod, `<<`/`>>` by constants, `|` → orNonneg, comparisons → decide).
-//
-// The model *calls* the emitted definitions (or a theorem proves them equal to the hand-written
-// model on all arguments), so a semantic change of the Go expression changes the obligation while
-// a renaming or an equivalent constant (4 vs Word, 1024*1024 vs a named constant) does not.
+// TranslateExpr: the expression-level entry of the Go→Lean translator (translate.go), for code whose
+// functions are not translatable as a whole (they take readers / buffers) but whose decisions and
+// arithmetic are integer expressions.  The caller locates the expression in the AST by its ROLE (the
+// condition guarding a given return, the argument of a given call, …) and names the sub-expressions
+// that become parameters; the translation is emitted as a Lean definition that the model calls.
 
 import (
 	"fmt"
 	"go/ast"
-	"go/token"
 	"strings"
 )
 
-// ExprOpt configures TranslateExpr.
-type ExprOpt struct {
-	Locals map[string]ast.Expr // local constants / single-assignment locals to substitute by their definition
-	Fns    map[string]string   // callable translated functions: Go name → Lean name
-	Atoms  *[]string           // if non-nil, shared atom table (several expressions with the same parameter list)
-}
+// Squash removes all white space of a canonical source string.
+func Squash(s string) string { return strings.Join(strings.Fields(s), "") }
 
-type exprRewriter struct {
-	f     *Facts
-	dir   string
-	opt   ExprOpt
-	atoms []string
-	depth int
-}
-
-func (r *exprRewriter) atom(src string) ast.Expr {
-	for i, a := range r.atoms {
-		if a == src {
-			return &ast.Ident{Name: fmt.Sprintf("a%d", i)}
-		}
+// substExpr copies x, replacing every sub-expression whose squashed source is a key of subst by an
+// identifier.
+func (f *Facts) substExpr(x ast.Expr, subst map[string]string) ast.Expr {
+	if x == nil {
+		return nil
 	}
-	r.atoms = append(r.atoms, src)
-	return &ast.Ident{Name: fmt.Sprintf("a%d", len(r.atoms)-1)}
-}
-
-func (r *exprRewriter) isConst(x ast.Expr) bool {
-	t := &translator{f: r.f, dir: r.dir, vars: map[string]bool{}}
-	_, ok := t.constOf(x)
-	return ok
-}
-
-func (r *exprRewriter) rw(x ast.Expr) ast.Expr {
-	r.depth++
-	defer func() { r.depth-- }()
-	if r.depth > 64 {
-		return x
+	if v, ok := subst[Squash(f.Src(x))]; ok {
+		return &ast.Ident{Name: v}
 	}
 	switch x := x.(type) {
 	case *ast.ParenExpr:
-		return &ast.ParenExpr{X: r.rw(x.X)}
-	case *ast.BasicLit:
-		return x
-	case *ast.Ident:
-		switch x.Name {
-		case "true", "false", "nil":
-			return x
-		}
-		if d, ok := r.opt.Locals[x.Name]; ok {
-			return &ast.ParenExpr{X: r.rw(d)}
-		}
-		if r.isConst(x) {
-			return x
-		}
-		return r.atom(x.Name)
-	case *ast.SelectorExpr:
-		if r.isConst(x) {
-			return x
-		}
-		return r.atom(r.f.Src(x))
-	case *ast.IndexExpr:
-		return r.atom(r.f.Src(x))
+		return &ast.ParenExpr{X: f.substExpr(x.X, subst)}
 	case *ast.UnaryExpr:
-		return &ast.UnaryExpr{Op: x.Op, X: r.rw(x.X)}
+		return &ast.UnaryExpr{Op: x.Op, X: f.substExpr(x.X, subst)}
 	case *ast.BinaryExpr:
-		return &ast.BinaryExpr{X: r.rw(x.X), Op: x.Op, Y: r.rw(x.Y)}
+		return &ast.BinaryExpr{X: f.substExpr(x.X, subst), Op: x.Op, Y: f.substExpr(x.Y, subst)}
 	case *ast.CallExpr:
-		if id, ok := x.Fun.(*ast.Ident); ok {
-			if id.Name == "len" && len(x.Args) == 1 {
-				return r.atom(r.f.Src(x))
-			}
-			if (id.Name == "byte" || id.Name == "uint8") && len(x.Args) == 1 {
-				return &ast.ParenExpr{X: &ast.BinaryExpr{X: r.rw(x.Args[0]), Op: token.AND, Y: &ast.BasicLit{Kind: token.INT, Value: "255"}}}
-			}
-			if _, ok := r.opt.Fns[id.Name]; ok {
-				args := make([]ast.Expr, len(x.Args))
-				for i, a := range x.Args {
-					args[i] = r.rw(a)
-				}
-				return &ast.CallExpr{Fun: id, Args: args}
-			}
+		args := make([]ast.Expr, len(x.Args))
+		for i, a := range x.Args {
+			args[i] = f.substExpr(a, subst)
 		}
-		t := &translator{f: r.f, dir: r.dir, vars: map[string]bool{}}
-		if len(x.Args) == 1 && t.typeKind(x.Fun) == "int" { // conversion
-			return r.rw(x.Args[0])
-		}
-		if _, ok := x.Fun.(*ast.SelectorExpr); ok && len(x.Args) == 0 { // b.Len(), reader.Total()
-			return r.atom(r.f.Src(x))
-		}
+		return &ast.CallExpr{Fun: x.Fun, Args: args}
 	}
-	return x // left for the translator to reject
+	return x
 }
 
-func isBoolExpr(x ast.Expr) bool {
-	switch x := x.(type) {
-	case *ast.ParenExpr:
-		return isBoolExpr(x.X)
-	case *ast.UnaryExpr:
-		return x.Op == token.NOT
-	case *ast.BinaryExpr:
-		switch x.Op {
-		case token.LSS, token.LEQ, token.GTR, token.GEQ, token.EQL, token.NEQ, token.LAND, token.LOR:
-			return true
-		}
-	case *ast.Ident:
-		return x.Name == "true" || x.Name == "false"
+// TranslateExpr emits `def leanName (p₁ : Int) … : result := ⟦x⟧` (result = "Int" or "Bool").
+// params are the Go identifiers that become parameters (after subst); subst maps squashed Go
+// sub-expressions (e.g. "b.Len()", "b.Buf[0]") to parameter names.  A nil x, or anything outside the
+// translatable subset, emits an ill-typed definition (fails closed).  role is printed as a comment.
+func (f *Facts) TranslateExpr(leanName, dir string, x ast.Expr, result string, params []string, subst map[string]string, role string) {
+	if x == nil {
+		f.Raw(fmt.Sprintf("def %s : Int := missing_translation_%s -- %s: expression not found", leanName, leanName, role))
+		return
 	}
-	return false
-}
-
-func (f *Facts) translateExprs(leanName, dir string, xs []ast.Expr, opt ExprOpt, list bool) []string {
-	r := &exprRewriter{f: f, dir: dir, opt: opt}
-	if opt.Atoms != nil {
-		r.atoms = *opt.Atoms
+	orig := f.Src(x)
+	t := &translator{f: f, dir: dir, fns: map[string]string{}, vars: map[string]bool{}, bools: map[string]bool{}, leanName: leanName}
+	var ps []string
+	for _, p := range params {
+		t.vars[p] = true
+		ps = append(ps, fmt.Sprintf("(%s : Int)", leanIdent(p)))
 	}
-	var src []string
-	for _, x := range xs {
-		if x == nil {
-			f.Missing(leanName, "expression not found in "+dir)
-			return nil
-		}
-		src = append(src, f.Src(x))
-	}
-	rewritten := make([]ast.Expr, len(xs))
-	for i, x := range xs {
-		rewritten[i] = r.rw(x)
-	}
-	t := &translator{f: f, dir: dir, fns: opt.Fns, vars: map[string]bool{}, bools: map[string]bool{}, leanName: leanName}
-	if t.fns == nil {
-		t.fns = map[string]string{}
-	}
-	var params []string
-	for i := range r.atoms {
-		n := fmt.Sprintf("a%d", i)
-		t.vars[n] = true
-		params = append(params, n)
-	}
-	var outs []string
-	for _, x := range rewritten {
-		outs = append(outs, t.expr(x))
-	}
-	doc := strings.ReplaceAll(strings.Join(src, " ; "), "-/", "- /")
+	body := t.expr(f.substExpr(x, subst))
 	if t.err != nil {
-		f.Raw(fmt.Sprintf("/- `%s` (%s) is outside the translatable subset: %v -/", doc, dir, t.err))
-		f.Missing(leanName, "untranslatable expression")
-		return nil
+		f.Raw(fmt.Sprintf("/- %s: `%s` is outside the translatable subset: %v -/", role, strings.ReplaceAll(orig, "-/", "- /"), t.err))
+		f.Raw(fmt.Sprintf("def %s : Int := missing_translation_%s", leanName, leanName))
+		return
 	}
-	sig := ""
-	if len(params) > 0 {
-		sig = " (" + strings.Join(params, " ") + " : Int)"
-	}
-	var atomDoc []string
-	for i, a := range r.atoms {
-		atomDoc = append(atomDoc, fmt.Sprintf("a%d = %s", i, a))
-	}
-	f.Raw(fmt.Sprintf("/-- Translated from `%s` in %s (%s). -/", doc, dir, strings.Join(atomDoc, ", ")))
-	switch {
-	case list:
-		f.Raw(fmt.Sprintf("def %s%s : List Int := [%s]\n", leanName, sig, strings.Join(outs, ", ")))
-	case isBoolExpr(xs[0]):
-		f.Raw(fmt.Sprintf("def %s%s : Bool := %s\n", leanName, sig, outs[0]))
-	default:
-		f.Raw(fmt.Sprintf("def %s%s : Int := %s\n", leanName, sig, outs[0]))
-	}
-	if opt.Atoms != nil {
-		*opt.Atoms = r.atoms
-	}
-	return r.atoms
+	f.Raw(fmt.Sprintf("/-- %s — translated from `%s`. -/", role, strings.ReplaceAll(Squash(orig), "-/", "- /")))
+	f.Raw(fmt.Sprintf("def %s %s : %s := %s", leanName, strings.Join(ps, " "), result, body))
 }
 
-// TranslateExpr emits `def leanName (a0 … : Int) : Bool|Int` for one expression and returns the
-// atoms' source texts (parameter i stands for atoms[i]).  A nil or untranslatable expression is
-// emitted as a missing fact (fails closed).
-func (f *Facts) TranslateExpr(leanName, dir string, x ast.Expr, opt ExprOpt) []string {
-	return f.translateExprs(leanName, dir, []ast.Expr{x}, opt, false)
-}
-
-// TranslateExprList emits `def leanName (a0 … : Int) : List Int := [e1, e2, …]` (one parameter
-// list for all elements), e.g. for the arguments of an append(...) that writes a header.
-func (f *Facts) TranslateExprList(leanName, dir string, xs []ast.Expr, opt ExprOpt) []string {
-	if len(xs) == 0 {
-		f.Missing(leanName, "empty expression list in "+dir)
-		return nil
+// ConstBool emits a constant Bool function of the given parameters (used when a guard is absent).
+func (f *Facts) ConstFn(leanName string, params []string, result, value, role string) {
+	var ps []string
+	for _, p := range params {
+		ps = append(ps, fmt.Sprintf("(_%s : Int)", p))
 	}
-	return f.translateExprs(leanName, dir, xs, opt, true)
-}
-
-// IfConds returns the conditions of all `if` statements of a function body in source order
-// (including `else if`), descending into nested blocks.
-func IfConds(body *ast.BlockStmt) []ast.Expr {
-	var out []ast.Expr
-	if body == nil {
-		return nil
-	}
-	ast.Inspect(body, func(n ast.Node) bool {
-		if is, ok := n.(*ast.IfStmt); ok {
-			out = append(out, is.Cond)
-		}
-		return true
-	})
-	return out
-}
-
-// LocalConsts collects `const x = e` declarations and `x := e` definitions of a function body whose
-// variable is assigned exactly once (candidates for substitution in TranslateExpr).
-func LocalConsts(body *ast.BlockStmt) map[string]ast.Expr {
-	defs := map[string]ast.Expr{}
-	count := map[string]int{}
-	if body == nil {
-		return defs
-	}
-	ast.Inspect(body, func(n ast.Node) bool {
-		switch s := n.(type) {
-		case *ast.ValueSpec:
-			for i, id := range s.Names {
-				if i < len(s.Values) {
-					defs[id.Name] = s.Values[i]
-					count[id.Name]++
-				}
-			}
-		case *ast.AssignStmt:
-			if len(s.Lhs) == 1 && len(s.Rhs) == 1 {
-				if id, ok := s.Lhs[0].(*ast.Ident); ok {
-					count[id.Name]++
-					if s.Tok == token.DEFINE {
-						defs[id.Name] = s.Rhs[0]
-					}
-				}
-			} else {
-				for _, l := range s.Lhs {
-					if id, ok := l.(*ast.Ident); ok {
-						count[id.Name] += 2
-					}
-				}
-			}
-		case *ast.IncDecStmt:
-			if id, ok := s.X.(*ast.Ident); ok {
-				count[id.Name] += 2
-			}
-		}
-		return true
-	})
-	for n, c := range count {
-		if c != 1 {
-			delete(defs, n)
-		}
-	}
-	return defs
+	f.Raw(fmt.Sprintf("/-- %s. -/", role))
+	f.Raw(fmt.Sprintf("def %s %s : %s := %s", leanName, strings.Join(ps, " "), result, value))
 }
